@@ -3,7 +3,7 @@ from harness import common, nsoracles, sysimg, sysprops
 from harness.props import celeaf, namesleaf, nlinkleaf, rrleaf, rrplaceleaf
 
 MODULE = 'C08'
-RECIPES = ['ce_gap_plus', 'ce_gap_exact', 'ce_gap_minus', 'deep_tree', 'long_symlinks', 'fat_dir_churn']
+RECIPES = ['ce_gap_plus', 'ce_gap_exact', 'ce_gap_minus', 'deep_tree', 'reloc_churn', 'long_symlinks', 'fat_dir_churn', 'symlink_ce_release']
 
 
 def oracle(b, report):
@@ -25,12 +25,13 @@ def run(ctx):
                                                        cfg_filter=lambda c: c.rr is not None),
                         oracle, need_reopen=False, max_shrink=5)
     # reopen-then-edit generations: continuation areas of a parsed image must be tracked before new ones are placed
-    hist = list(sysprops.histories(ctx, 30 if quick else 500, ['ce_gap_plus', 'long_symlinks'], dict(allow_refusals=False, long_rr=0.5, max_depth=5),
+    hist = list(sysprops.histories(ctx, 30 if quick else 500, ['ce_gap_plus', 'long_symlinks', 'deep_tree', 'reloc_churn'], dict(allow_refusals=False, long_rr=0.5, max_depth=5),
                                    nops=(6, 30), recipe_cfgs=2 if quick else 10, cfg_filter=lambda c: c.rr is not None))
     for label, cfg, ops, sizes in hist:
         if len(ops) < 3:
             continue
-        rp = (ctx.rng.randrange(1, len(ops)),)
+        # relocation recipes: reopen late, so that directories are relocated on both sides of the reopen
+        rp = (ctx.rng.randrange(len(ops) * 2 // 3, len(ops)) if ('deep_tree' in label or 'reloc' in label) else ctx.rng.randrange(1, len(ops)),)
         sysprops.run_oracle(ctx, 'C08', iter([(label + '+reopen', cfg, ops, sizes)]), oracle, need_reopen=False, max_shrink=1,
                             build_kwargs={'reopen_points': rp})
     rrleaf.flush(ctx)
